@@ -3,6 +3,7 @@ from __future__ import annotations
 
 import ast
 
+from ..inline import inlined
 from ..model import AnalysisError, ClassInfo, FuncInfo, Program
 from ..report import Run
 from ..skel import BUILDER_CLASSES, recv_path, render, root_attr, skeletons, term_classes
@@ -19,8 +20,13 @@ def self_attr(e: ast.expr, selfname: str) -> str | None:
     return None
 
 
+_PROGRAM: list = []
+
+
 def rewritten_attrs(f: FuncInfo, recv: ClassInfo | None = None):
     """(attr -> set of source attrs whose .replace_table result / comparison feeds the assignment, leaf attrs, compared names)"""
+    if _PROGRAM:
+        f = inlined(_PROGRAM[0], f)     # closures (`def replace(x): return x.replace_table(a, b)`) and private helpers read through
     selfname = f.params[0]
     out: dict[str, set] = {}
     leaves = set()
@@ -186,6 +192,7 @@ def check(program: Program, run: Run) -> None:
     run.rule("R4 every replace_table definition other than the Term no-op is @builder")
     run.rule("R5b replace_table has no early exit except on identity / None / type tests (== between tables is coarser than their rendering)")
     run.rule("R5 a child is rewritten unconditionally: the only tests allowed around x.replace_table(...) are type/None tests on x or comparisons with the tables being exchanged")
+    _PROGRAM[:] = [program]
     term = program.cls("Term")
     sel = program.cls("Selectable")
     noop = term.methods.get("replace_table")
